@@ -172,7 +172,7 @@ def crate_C05(rep, F, gens):
     return rules.check_ctor_sites(rep, F, gens)
 
 
-CRATE_PROPS = {'C05': crate_C05, 'C04': crate_C05, 'C12': crate_C05, 'C09': crate_C05}
+CRATE_PROPS = {'C05': crate_C05, 'C04': crate_C05, 'C12': crate_C05, 'C09': crate_C05, 'C03': crate_C05, 'C06': crate_C05}
 
 from . import witcat
 
